@@ -34,7 +34,28 @@ def c11 (args : List String) : String :=
            | .malformed => "X")
         | none => "bad-path"
       let wf := (Spec.document true buf).isSome && Spec.utf8Valid buf
-      s!"spec={String.intercalate "," rs} wf={ar wf}"
+      -- the walker model on the specification's tree, and the single-path lookups on the same tree
+      let paths := (ps.splitOn "|").filterMap parsePath
+      let (walkS, lookS) : String × String := match docTree false buf with
+        | some doc =>
+          let shown (o : Option Json) : String := match o with
+            | some v => "A:" ++ dumpJson buf true v
+            | none => "N"
+          ((match getMany paths doc with
+            | some out => String.intercalate ";" (out.map shown)
+            | none => "Err"),
+           String.intercalate ";" (paths.map fun p => shown (lookJ doc p)))
+        | none => ("notree", "notree")
+      -- the text-level lookup of each path, dumped the same way (ties `lookJ` to `Spec.lookup`)
+      let specd := String.intercalate ";" ((ps.splitOn "|").map fun p =>
+        match parsePath p with
+        | some path => (match lookup buf path with
+          | .found s _ => (match tree false (fuelFor buf) buf s with
+            | some (v, _) => "A:" ++ dumpJson buf true v
+            | none => "X")
+          | _ => "N")
+        | none => "bad-path")
+      s!"spec={String.intercalate "," rs} wf={ar wf} walk={walkS} look={lookS} specd={specd}"
     | none => "bad-hex"
   | _ => "bad-args"
 
